@@ -237,7 +237,7 @@ _STATEMENTS = [
     b'POKE 4588,255', b'DEF SEG=&H1000: PRINT PEEK(4073)', b'BSAVE "A:X",0,5000', b'BSAVE "A:X",0,100: BLOAD "A:X",4073',
     b'PRINT VARPTR(#"")', b'PRINT VARPTR(#"A")', b'PRINT VARPTR(#1)', b'PRINT VARPTR(#0)', b'PRINT VARPTR(#255)', b'PRINT VARPTR(#256)',
     b'PRINT VARPTR(#-1)', b'DEF SEG=&HB700: POKE 0,65: PRINT PEEK(0)', b'DEF SEG=&HA000: POKE 0,65: PRINT PEEK(0)',
-    b'PRINT PEEK(-1)', b'POKE -1,1', b'PRINT PEEK(65535)', b'POKE 65535,255', b'DEF SEG=&HFFFF: PRINT PEEK(65535)',
+    b'DEF SEG=0: POKE 1050,0: PRINT PEEK(1056)', b'DEF SEG=0: POKE 1052,255: PRINT PEEK(1054)', b'PRINT PEEK(-1)', b'POKE -1,1', b'PRINT PEEK(65535)', b'POKE 65535,255', b'DEF SEG=&HFFFF: PRINT PEEK(65535)',
     b'SCREEN 1: OUT &H3CF,3: OUT &H3C5,15', b'SCREEN 0: DEF SEG=&HB800: BSAVE "A:S",4090,20: BLOAD "A:S"',
 ]
 
